@@ -27,3 +27,31 @@ Definition sx_reencoded_delta (w : world) (b : bool) (prog : list op) : sx :=
               end
   | None => SA "raises"
   end.
+
+(* the payload rebuilt from the delta that was read: must be the payload Delta.diff holds *)
+From DD Require Import Pickle.PickleShow.
+Definition sx_rebuilt_payload (w : world) (b : bool) (prog : list op) : sx :=
+  match load w prog with
+  | Some p => match delta_of_pv b p with
+              | Some d => sx_pv (pv_of_delta d)
+              | None => SA "not-an-ordered-mode-delta"
+              end
+  | None => SA "raises"
+  end.
+
+(* the three observations with one run of the machine *)
+Definition sx_delta_all (w : world) (b : bool) (prog : list op) : sx :=
+  match load w prog with
+  | Some p =>
+      match delta_of_pv b p with
+      | Some d =>
+          SL [sx_delta d;
+              match load w (enc_prog (pv_of_delta d)) with
+              | Some p' => match delta_of_pv b p' with Some d' => sx_delta d' | None => SA "not-an-ordered-mode-delta" end
+              | None => SA "raises"
+              end;
+              sx_pv (pv_of_delta d)]
+      | None => SA "not-an-ordered-mode-delta"
+      end
+  | None => SA "raises"
+  end.
